@@ -83,6 +83,14 @@ static void build_attempts()
         ATT(n + "t = S::from_utf8(ptr,n)", vf::EX_UNICODE, TRY(t = S::from_utf8(d.data(), d.size())));
         ATT(n + "t = S::from_std_string", vf::EX_UNICODE, TRY(t = S::from_std_string(d)));
         ATT(n + "t = t.replace(\"a\", cstr)", vf::EX_UNICODE, TRY(t = t.replace("a", d.c_str())));
+        // the pattern is validated like any other text argument, in every overload that takes C text
+        ATT(n + "t = t.replace(cstr, \"x\")", vf::EX_UNICODE, TRY(t = t.replace(d.c_str(), "x")));
+        ATT(n + "t = t.replace(cstr, S)", vf::EX_UNICODE, S x = S::from_validated("x", 1); TRY(t = t.replace(d.c_str(), x)));
+        ATT(n + "t = t.replace(cstr, S, cs, check_validity)", vf::EX_UNICODE, S x = S::from_validated("x", 1);
+            TRY(t = t.replace(d.c_str(), x, ST::case_sensitive, ST::check_validity)));
+        ATT(n + "t = t.replace(S, cstr, cs, check_validity)", vf::EX_UNICODE, S x = S::from_validated("a", 1);
+            TRY(t = t.replace(x, d.c_str(), ST::case_sensitive, ST::check_validity)));
+        ATT(n + "t = t.replace(char8_t cstr, char8_t cstr)", vf::EX_UNICODE, TRY(t = t.replace((const char8_t *)d.c_str(), u8"x")));
         ATT(n + "istream >> t", vf::EX_UNICODE, std::istringstream is(d + " tail"); TRY(is >> t));
         ATT(n + "stream.to_string()", vf::EX_UNICODE, ST::string_stream ss; ss << "0123456789"; ss.append(d.data(), d.size());
             std::string b4 = dump(ss); TRY(t = ss.to_string()); if (dump(ss) != b4) problem = "the stream changed during a failed to_string()");
@@ -175,7 +183,7 @@ static void build_attempts()
     ATT("t = from_double(v,'q')", vf::EX_BADFORMAT, TRY(t = S::from_double(1.5, 'q')));
     ATT("t = from_float(v,'d')", vf::EX_BADFORMAT, TRY(t = S::from_float(1.5f, 'd')));
     // decoders into an existing buffer
-    for (size_t pre : {size_t(0), size_t(5), size_t(40)}) {
+    for (size_t pre : {size_t(0), size_t(2), size_t(3), size_t(5), size_t(40)}) {
         for (const char *bad : {"abc", "zz", "0g", "\xC3\xA9"}) {
             ATT(vf::strf("cb[%zu] = hex_decode(%s)", pre, vf::vis(bad, strlen(bad)).c_str()), vf::EX_CODEC, ST::char_buffer cb(pre, 'k');
                 std::string b4 = dump(cb); S in = S::from_validated(bad, strlen(bad)); TRY(cb = ST::hex_decode(in));
@@ -192,6 +200,11 @@ static void build_attempts()
             S w = S::from_validated("a\xE2\x82\xAC", 4); TRY(w.to_buffer(cb, false, false)); if (dump(cb) != b4) problem = "the target buffer changed");
         ATT(vf::strf("t.to_buffer(cb[%zu], false, false)", pre), vf::EX_UNICODE, ST::char_buffer cb(pre, 'k'); std::string b4 = dump(cb);
             TRY(t.to_buffer(cb, false, false)); if (!oc.ok() && dump(cb) != b4) problem = "the target buffer changed");
+        // the deprecated overloads that take a validation mode instead of the substitution flag
+        ATT(vf::strf("euro.to_buffer(cb[%zu], false, check_validity) [deprecated]", pre), vf::EX_UNICODE, ST::char_buffer cb(pre, 'k'); std::string b4 = dump(cb);
+            S w = S::from_validated("a\xE2\x82\xAC", 4); TRY(w.to_buffer(cb, false, ST::check_validity)); if (dump(cb) != b4) problem = "the target buffer changed");
+        ATT(vf::strf("euro.to_std_string(std[%zu], false, check_validity) [deprecated]", pre), vf::EX_UNICODE, std::string tgt(pre, 'k'); std::string b4 = tgt;
+            S w = S::from_validated("a\xE2\x82\xAC", 4); TRY(w.to_std_string(tgt, false, ST::check_validity)); if (tgt != b4) problem = "the target std::string changed");
         ATT(vf::strf("t.to_std_string(std[%zu], false, false)", pre), vf::EX_UNICODE, std::string tgt(pre, 'k'); std::string b4 = tgt;
             TRY(t.to_std_string(tgt, false, false)); if (!oc.ok() && tgt != b4) problem = "the target std::string changed");
     }
